@@ -28,6 +28,30 @@ T = {
     "C18": ("exploration", "differential lazy vs eager twin vs reference evaluator; call log before/after evaluate(); recorded task graph compared with dependencies read off the deferred objects and with the reference DAG",
             "Held on generated DAGs (diamonds, tuple-output interior nodes, bound values, intermediates supplied): zero calls before evaluate(), value equality, exactly-once after three evaluate() calls, task graph acyclic with exactly the producer/consumer edges.",
             "Bounded by the generator (<=6 functions); deferred objects inspected through .func/.args/.kwargs/.evaluate().", "4/C18"),
+    "C04": ("exploration", "reload differential: run folder written by a forked child, reloaded in the running process and in a fresh interpreter (no fork) after all manager processes are gone; compared with the denotation and with what the run was given",
+            "Held on generated pipelines x every persisting storage configuration (file_array, dict, shared_memory_dict, two per-output mixes), sequential and process-pool runs: outputs, inputs (value and type), defaults, shapes, masks, MapSpecs, storage choice, repeated load, xarray dataset same-process vs fresh-process.",
+            "Fresh process = subprocess with another PYTHONHASHSEED sharing only the folder; xarray helper failures themselves belong to C19.", "4/C04"),
+    "C06": ("exploration", "partitioned execution monitor: fixed_indices parts and adaptive learners run in shuffled orders; per-part stored-mask and call-log accounting against the denotation, final full run must compute nothing",
+            "Held on generated pipelines with an unreduced root axis: partitions into ints / negative ints / slices / negative-step slices (one and two axes), learners with and without split_independent_axes and with fixed_indices; invalid requests must be rejected before any call.",
+            "Independent axes computed by the harness's own analysis; masks observed through load_outputs; file_array storage.", "4/C06"),
+    "C08": ("exploration", "model-based differential on MapSpec (own AST algebra): round trip, shape, output_key/input_keys bijection, malformation operators, rename/add_axes, consistency helpers",
+            "Exhaustive over all small specs (<=2 inputs, rank<=2, 3 index names) x all shapes with sizes 1..4 x all linear indices, plus sampled larger specs, mutated texts and spec sets.",
+            "Text mutations: word text may never be dropped silently; stray punctuation is judged only when a clear non-identifier name results (see evidence rule).", "4/C08"),
+    "C11": ("exploration", "differential of restricted runs (subpipeline, map(output_names), auto_subpipeline) against the harness's own needed-set / computability analysis and the reference evaluator; call log = exactly the needed functions",
+            "All non-empty output sets (<=4 outputs; sampled beyond) x exact cuts (root-only, interior-only, mixed) on call-DAGs with nullary / default-only functions and on MapSpec pipelines; uncomputable requests must raise naming a missing name.",
+            "Functions taking a defaulted root declare the default themselves; no defaults on parameters naming an upstream output; surplus inputs are C12's business.", "4/C11"),
+    "C14": ("exploration", "explicit-state exploration of the replacement-policy models with the real cache carried along every transition; multi-process stress with sys.monitoring yield injection and barrier checks; icontract invariant as diagnostic",
+            "Every transition of the model trees (3-4 keys, max_size 1..3, depth 5-7) checked on the real LRU/Hybrid/Simple/Disk caches incl. re-put, clear, reopen; shared instances through managers and 3-4 process stress runs with quiescent barriers.",
+            "Hybrid details the docstring leaves open are accepted either way; disk eviction judged by observed st_ctime_ns minima; stress explores schedules by yield injection, not exhaustively.", "4/C14"),
+    "C15": ("exploration", "differential of to_hashable against a structural value-equality oracle over generated value pairs (equal copies, look-alike mutants), cross-interpreter key comparison under different hash seeds, stale-hit monitor on memoize",
+            "Recursive generator over the supported types to depth 3, ~80 look-alike mutation kinds, every cache class behind memoize, fresh interpreters with other PYTHONHASHSEEDs.",
+            "Numbers equal across scalar types (1/True/1.0) and pandas dtypes carry no expectation; NaN and forged marker tuples excluded; pickle-fallback keys are a recorded known finding.", "4/C15"),
+    "C16": ("exploration", "differential of is_type_compatible against a reference subtype relation over all ordered annotation pairs + algebraic laws + generated annotated pipelines (direct / element-wise / reduction edges)",
+            "All ordered pairs of depth<=1 (quick) / depth<=2 (thorough) annotations plus seeded depth-3 pairs; laws named individually; pipelines built with validation on and off.",
+            "Reference relation calibrated against the literal triples of tests/test_typing.py; TypeVar in source position one-sided; string metadata in Annotated outside the grammar.", "4/C16"),
+    "C17": ("exploration", "model-based differential on the sweep API (list-semantics reference): single sweeps, product, +/MultiSweep, filtered_sweep, count_sweep",
+            "Exhaustive over item dicts with <=3 keys (thorough: 4), lengths 0..3, all partitions into zipped groups, every option cell (constants/derivers/exclude), all structure pairs for product/+ and sampled triples.",
+            "Row-major order demanded only when dims is omitted or in item order; derivers are order-independent by construction; product with a zipped right operand under a dims=None left operand is a recorded known finding.", "4/C17"),
     "C20": ("exploration", "model-based differential on the Resources API (own arithmetic model) with icontract snapshot/ensure contracts on the real methods for the no-side-effect clause",
             "Exhaustive grid of single specifications, all ordered pairs of a value core, sampled operand lists, update calls, invalid-combination grid and mutated memory/time strings, NestedPipeFunc maxima; contracts count their evaluations (zero = inconclusive).",
             "Memory compared under decimal and binary unit conventions; only strings outside a permissive grammar must be rejected; see evidence assumptions.", "4/C20"),
